@@ -68,6 +68,7 @@ func main() {
 		verbose  = flag.Int("v", 0, "verbosity")
 		smtLog   = flag.String("smtlog", "", "write the SMT-LIB dialogue to this file")
 		tags     = flag.String("tags", "verif", "build tags")
+		fixF     = flag.String("fix", "", "force Choose values: name=value,name=value")
 	)
 	flag.Parse()
 
@@ -147,7 +148,15 @@ func main() {
 			results = append(results, &HarnessResult{Harness: entry, Package: mainPkg.Pkg.Path(), Error: "entry function not found"})
 			continue
 		}
-		c := Config{MaxPaths: *maxPaths, MaxSteps: *maxSteps, Unwind: *unwind, FeasTimeoutMs: *feasTO, OblTimeoutMs: *oblTO,
+		fix := map[string]uint64{}
+		for _, kv := range strings.Split(*fixF, ",") {
+			if k, v, ok := strings.Cut(kv, "="); ok {
+				var n uint64
+				fmt.Sscan(v, &n)
+				fix[k] = n
+			}
+		}
+		c := Config{Fix: fix, MaxPaths: *maxPaths, MaxSteps: *maxSteps, Unwind: *unwind, FeasTimeoutMs: *feasTO, OblTimeoutMs: *oblTO,
 			ConcrCap: *concrCap, Deadline: time.Now().Add(time.Duration(*wall) * time.Second), Verbose: *verbose}
 		log := ""
 		if *smtLog != "" {
